@@ -31,6 +31,26 @@ class MockKmerFinder:
         return True
 
 
+class ShortReadsPassKmerFinder:
+    """
+    Let reads shorter than *min_length* pass and ask a KmerFinder about the others.
+
+    The k-mer sets of an adapter cover occurrences that contain the beginning of
+    the adapter, its end, or the adapter as a whole. When overlaps are allowed at
+    both ends of the read, a shorter read can also align to an inner part of the
+    adapter, and no k-mer of those sets needs to occur in it.
+    """
+
+    def __init__(self, kmer_finder, min_length: int):
+        self.kmer_finder = kmer_finder
+        self.min_length = min_length
+
+    def kmers_present(self, sequence: str):
+        return len(sequence) < self.min_length or self.kmer_finder.kmers_present(
+            sequence
+        )
+
+
 class InvalidCharacter(Exception):
     pass
 
@@ -619,7 +639,7 @@ class SingleAdapter(Adapter, ABC):
         back_adapter: bool,
         front_adapter: bool,
         internal: bool = True,
-    ) -> Union[KmerFinder, MockKmerFinder]:
+    ) -> Union[KmerFinder, MockKmerFinder, "ShortReadsPassKmerFinder"]:
         positions_and_kmers = create_positions_and_kmers(
             sequence,
             self.min_overlap,
@@ -632,12 +652,16 @@ class SingleAdapter(Adapter, ABC):
         if self._debug:
             print(kmer_probability_analysis(positions_and_kmers))
         try:
-            return KmerFinder(
+            kmer_finder = KmerFinder(
                 positions_and_kmers, self.adapter_wildcards, self.read_wildcards
             )
         except ValueError:
             # Kmers too long.
             return MockKmerFinder()
+        if back_adapter and front_adapter:
+            max_errors = int(self.max_error_rate * len(sequence))
+            return ShortReadsPassKmerFinder(kmer_finder, len(sequence) + max_errors)
+        return kmer_finder
 
     def __repr__(self):
         return (
